@@ -107,7 +107,7 @@ Theorem C05_namedtuple_exn : forall E Q c k l e,
   ue E Q (VList l) (UNamed c) = Exn e ->
   (exists i x f, nth_error l i = Some x /\ nth_error (sc_fields k) i = Some f /\
                  ue E Q x (cu true (sf_ty f)) = Exn e) \/
-  (exists rest, nt_tail konst_u (nt_exhausted (TyModel.has_default (sc_fields k))) rest = Exn e).
+  (exists rest, nt_tail (konst_u E) (nt_exhausted (TyModel.has_default (sc_fields k))) rest = Exn e).
 Proof. exact namedtuple_exn. Qed.
 Print Assumptions C05_namedtuple_exn.
 
